@@ -1098,6 +1098,12 @@ pub fn pow2_bits(lay: Lay, neg: bool, m: u128, e: i32) -> Option<u128> {
 /// Operand for a math function on source layout `s` with destination layout `d`.
 /// kind: 0 general (sqrt/log2/ln), 1 exp argument, 2 angle |x|<=200, 3 tan angle |x|<=100,
 /// 4 angle of any magnitude (work bound only)
+/// f64(atan(2^-i)) * 2^64 for i = 0..12, computed with mpmath (rounded to binary64, then scaled): NOT copied from the library
+pub const ATAN_F64_2P64: [u64; 12] = [
+    0xC90FDAA22168C000, 0x76B19C1586ED3C00, 0x3EB6EBF25901BA00, 0x1FD5BA9AAC2F6E00, 0x0FFAADDB967EF500, 0x07FF556EEA5D8940,
+    0x03FFEAAB776E5360, 0x01FFFD555BBBA970, 0x00FFFFAAAADDDDB8, 0x007FFFF55556EEF0, 0x003FFFFEAAAAB778, 0x001FFFFFD55555BC,
+];
+
 pub fn gen_trans_operand(rng: &mut Rng, s: Lay, d: Lay, kind: u32) -> u128 {
     let one = 1u128 << s.f;
     let ulp = rng.range(-3, 3) as i128 as u128;
@@ -1189,7 +1195,26 @@ pub fn gen_trans_operand(rng: &mut Rng, s: Lay, d: Lay, kind: u32) -> u128 {
         2 | 3 => {
             let lim: i64 = if kind == 2 { 200 } else { 100 };
             let limraw = (lim as u128) << s.f;
-            match rng.below(10) {
+            match rng.below(11) {
+                10 => {
+                    // signed sums of the first m double-precision arctangents atan(2^-i): the angles at which a CORDIC
+                    // rotation's residual becomes exactly zero after m steps (tables are commonly given in f64 precision),
+                    // exact or +- few ulp; also the plain f64 values of pi/4, pi/2 ... that callers feed from std consts
+                    let m = 1 + rng.below(10) as usize;
+                    let mut acc: i128 = 0;
+                    for (i, a) in ATAN_F64_2P64[..m].iter().enumerate() {
+                        if i == 0 || rng.chance(1, 2) { acc += *a as i128 } else { acc -= *a as i128 }
+                    }
+                    if rng.chance(1, 4) {
+                        acc = (ATAN_F64_2P64[0] as i128) * (1 + rng.below(8) as i128); // k * f64(pi/4)
+                    }
+                    if rng.chance(1, 2) {
+                        acc = -acc;
+                    }
+                    let v = if s.f >= 64 { (acc as u128) << (s.f - 64).min(63) } else { (acc >> (64 - s.f)) as u128 };
+                    let v = if rng.chance(1, 2) { v } else { v.wrapping_add(ulp) };
+                    if s.signed { v & s.mask() } else { v & s.max_bits() }
+                }
                 0 | 1 | 2 => {
                     // k * pi/4 +- few ulp
                     let kmax = lim * 4 * 1000 / 3142; // floor(lim / (pi/4)) conservative
